@@ -97,14 +97,15 @@ def scenario(ch, cfg):
     # ---- server
     if peer_kind == "real":
         if fault != "connect-first":
-            env.start_server(src=["sq::{x*x}", "v::4711", "cnt::{[a];a::x;#a}"])
+            env.start_server(src=["sq::{x*x}", "v::4711", "cnt::{[a];a::x;#a}", "big::{[a];a::x;!a}"])
             w.run(until=lambda: env.listener_up(), max_steps=2000)
         else:
             stats["probe_retry_path"] += 1
             # the listener appears only after the client's first attempt was refused
             env.server.klongloop.call_later(2.0 + ch.draw(8, "srvdelay"), lambda: [env.server.klong(f".srv({PORT})"),
                                                                                   env.server.klong("sq::{x*x}"), env.server.klong("v::4711"),
-                                                                                  env.server.klong("cnt::{[a];a::x;#a}")])
+                                                                                  env.server.klong("cnt::{[a];a::x;#a}"),
+                                                                                  env.server.klong("big::{[a];a::x;!a}")])
     else:
         w.run(until=lambda: env.listener_up(), max_steps=2000)
 
@@ -141,11 +142,31 @@ def scenario(ch, cfg):
         nc2 = state["nc2"]
         stats["probe_two_connections"] += 1
     ncs = [nc] if nc2 is None else [nc, nc2]
+    # application callbacks of the Python API (NetworkClient(on_error=..., on_close=...)) that themselves fail:
+    # the documented handling is "log and go on" - the pending callers are failed all the same
+    # (on_error is looked up when the error happens; on_close is bound when the client starts, so only the former
+    # can be installed on a client made by .cli)
+    if ch.weighted([5, 2], "callbacks"):
+        stats["probe_raising_app_callback"] += 1
+
+        async def broken_on_error(client, e):
+            stats["probe_broken_on_error_ran"] += 1
+            raise RuntimeError("application error handler is broken")
+        nc.on_error = broken_on_error
 
     # ---- callers
     def make_msg(i, j):
         base = 1000 * (i + 1)
-        kind = 0 if peer_kind == "scripted" else ch.weighted([5, 2, 1, 1, 1, 1, 1], "msgkind")
+        kind = 0 if peer_kind == "scripted" else ch.weighted([5, 2, 1, 1, 1, 1, 1, 1, 1], "msgkind")
+        if kind == 7:
+            # a response frame larger than 64 KiB (cuts can then fall inside a large body)
+            n = 8300 + 10 * i + j
+            stats["probe_big_response"] += 1
+            return ipc.KGRemoteFnCall(KGSym("big"), [n]), ("len", n)
+        if kind == 8:
+            # a request that cannot be encoded: this call must raise, the connection and the other calls are unaffected
+            stats["probe_unencodable_request"] += 1
+            return ipc.KGRemoteFnCall(KGSym("sq"), [lambda: 0]), "local-error"
         if kind == 6:
             # a request frame larger than 64 KiB (several callers may be sending at once): the answer is its length
             import numpy as np
@@ -193,7 +214,8 @@ def scenario(ch, cfg):
         while j < len(calls):
             msg, exp = calls[j]
             w.yield_point("invoke")
-            rec = {"caller": i, "idx": j, "msg": (f"fncall({msg.sym},{str(msg.params)[:30]})" if hasattr(msg, "sym") else
+            rec = {"caller": i, "idx": j, "msg": ("fncall(sq,[<python lambda>])" if exp == "local-error" else
+                                               f"fncall({msg.sym},{str(msg.params)[:30]})" if hasattr(msg, "sym") else
                                                f"dictget({msg.key})" if hasattr(msg, "key") else repr(msg)[:40]),
                    "expected": exp, "inv_step": w.steps, "ret_step": None, "conn": i % len(ncs),
                    "after_loss": (i % len(ncs)) in state.get("lost_conn", ())}
@@ -226,8 +248,8 @@ def scenario(ch, cfg):
                 else:
                     rec["outcome"] = ("exc", type(e).__name__, str(e)[:80])
             rec["ret_step"] = w.steps
-            w.note(f"ret {i}.{j} {rec['outcome'][0]} {rec['outcome'][1] if rec['outcome'][0] != 'harness' else ''}")
-            if rec["outcome"][0] == "exc" and exp != "error":
+            w.note(f"ret {i}.{j} {rec['outcome'][0]} {str(rec['outcome'][1])[:60] if rec['outcome'][0] != 'harness' else ''}")
+            if rec["outcome"][0] == "exc" and exp not in ("error", "local-error"):
                 state["loss_seen"] = True
                 state.setdefault("lost_conn", set()).add(i % len(ncs))
                 if extra == 0:
@@ -296,6 +318,13 @@ def scenario(ch, cfg):
         if oc[0] == "harness":
             raise HarnessError(f"exception from harness code inside a call: {oc[1]}")
         exp = rec["expected"]
+        if exp == "local-error":
+            # the request cannot be encoded: this call fails at the caller; nothing else is affected (the other
+            # records are judged by their own rules, so a leak of this failure to them is reported there)
+            if oc[0] == "ok":
+                viol("C14:unencodable-request-returned-a-value", f"call {rec['caller']}.{rec['idx']} {rec['msg']} returned {str(oc[1])[:60]!r} "
+                     f"although its request cannot be encoded; {ctx}")
+            continue
         if len(ncs) == 2 and rec["conn"] == 1 and oc[0] == "exc" and exp not in ("error", "must-fail"):
             only_conn0 = fault in ("cut", "close-race") or (fault == "server-error" and error_call is not None and error_call[0] % 2 == 0)
             if only_conn0:
@@ -312,7 +341,11 @@ def scenario(ch, cfg):
                     viol("C14:server-error-not-propagated", f"call {rec['msg']} returned {oc[1]!r} although the server-side evaluation fails")
             else:
                 try:
-                    same = (oc[1] == exp) if isinstance(exp, str) else int(oc[1]) == exp
+                    if isinstance(exp, tuple) and exp[0] == "len":
+                        import numpy as np
+                        same = len(oc[1]) == exp[1] and bool((np.asarray(oc[1]) == np.arange(exp[1])).all())
+                    else:
+                        same = (oc[1] == exp) if isinstance(exp, str) else int(oc[1]) == exp
                 except Exception:
                     same = False
                 if not same:
